@@ -149,10 +149,14 @@ def parser_family_check(prop, tier, seed, replay, mask, suites, models=(), requi
             if first and len(samples) < 4:
                 s = json.loads(first)
                 samples.append(s)
-    missing = [t for t in required_tags if tags.get(t, 0) == 0] + [r for r in required_results if results.get(r, 0) == 0]
+    missing = [t for t in required_tags if tags.get(t, 0) == 0]
     if missing:
         if not rep.new:
-            raise ToolError("vacuous run: never exercised: %s" % missing)
+            raise ToolError("vacuous run: input classes never generated: %s" % missing)
+    if not rep.new:
+        want_err = any(r.startswith("Err") for r in required_results)
+        soft_required([r for r in required_results if results.get(r, 0) == 0],
+                      results.get("Ok", 0) > 0 and (not want_err or any(k.startswith("Err") and v > 0 for k, v in results.items())))
     rc = rep.finish()
     cov = {"traces_validated_against_impl": total_events, "samples": samples,
            "events_rejected_for_this_property": total_bad, "input_classes": tags, "result_classes": results,
